@@ -17,6 +17,8 @@ type Contract struct {
 	Lemmas   []*Lemma
 	OnStores []*OnStore
 	OnCalls  []*OnCall
+	NoStores []string // struct field names that the function (and what it inlines) must never store to
+	FullLoops []string // loop keys: the loop is left only through its header test
 }
 
 type Clause struct {
